@@ -361,8 +361,20 @@ inline void (*g_contract_hook)(ContractHit const&) = nullptr;
 {
     ContractHit h{file, line, expr};
     if (g_contract_hook != nullptr) { g_contract_hook(h); }
+    if (ctx().memory_only) {
+        // C02 memory mode: a contract that fires on a generated call is C05's question (spurious firing), not a memory
+        // error.  The handler must not return and the object may be half-modified, so this shard stops here, cleanly.
+        count("memory_only.stopped_at_contract");
+        write_frag("contract-stop");
+        std::fflush(nullptr);
+        std::_Exit(0);
+    }
     std::string d = "contract handler fired on a call the generator considers valid: ";
-    d += (file ? file : "?");
+    {
+        std::string f = file ? file : "?";
+        auto at       = f.rfind("/include/etl/");
+        d += at == std::string::npos ? f : f.substr(at + 9); // path relative to the include dir: independent of TETL_ROOT
+    }
     d += ":" + std::to_string(line) + " ";
     d += (expr ? expr : "");
     auto& inf = inflight();
